@@ -56,7 +56,8 @@ def _process_vlandb(rule, key, diff, multi, multi_all, multi_chunk):  # pylint: 
             assert 0 <= len(diff[op]) <= 1, "Too many actions: %r" % (diff)
 
     if diff[Op.REMOVED] and not diff[Op.ADDED]:  # Removed
-        if multi and multi_all:
+        if multi and multi_all and not diff[Op.UNCHANGED]:
+            # "undo ... all" also wipes the vlans of lines that stay, so it is only a shortcut when none does
             yield (False, rule["reverse"].format(*key) + " all", None)
             return
         elif not multi and not multi_all:
